@@ -11,8 +11,9 @@ NSLICES = 64
 RULE = (
     "E1 exhaustive grid of ordered pairs. Families: lists (L in L<=2, R in L<=1 over T({x,y},{-1,0,1,2},{-2,0,1}): negative "
     "constants give polyhedra away from the origin and separated pairs with gaps above and below the LP's slack of 1; "
-    "complete in quick; R with 2 terms: one 1/%d slice in quick, complete in thorough), derived (R = positive "
-    "combinations / scalings / duplicates of L's terms with multipliers {1,2,1/2}), v3 (3 variables, thorough), "
+    "complete in quick (derived and contracts families: one complete half per seed); R with 2 terms: one 1/%d slice in quick, complete in thorough), derived (R = positive "
+    "combinations / scalings / duplicates of L's terms with multipliers {1,2,1/2}), margin (R = a term of L tightened or loosened "
+    "by 5e-4, 2e-3, 5e-2: just beyond the tolerance band on either side), v3 (3 variables, thorough), "
     "contracts (all ordered pairs of 133 contracts over one interface: refines, <=, contains_environment, "
     "contains_implementation), interfaces (every ordered pair of different interfaces over <=3 names must raise "
     "IncompatibleArgsError). Oracle three-valued: exact containment (no point at all outside) => must be True; a box "
@@ -82,6 +83,11 @@ def _all():
             ders.append([L[1], L[0]])
         for R in ders:
             yield {"fam": "derived", "L": L, "R": R}
+    # margins: the right side is a term of the left side tightened / loosened by a small amount (tolerance handling)
+    for L in L2:
+        for t in L:
+            for d in (0.0005, 0.002, 0.05, -0.0005, -0.05):
+                yield {"fam": "margin", "L": L, "R": [[t[0], t[1] - d]]}
     cs = _contracts()
     for c1 in cs:
         for c2 in cs:
@@ -105,14 +111,19 @@ def _all():
             yield {"fam": "v3", "L": L, "R": R}
 
 
-QUICK = ("lists", "derived", "contracts", "interfaces")
+QUICK = ("lists", "derived", "contracts", "interfaces", "margin")
 
 
 def cases(tier, seed):
     sl = seed % NSLICES
     k = 0
-    for c in _all():
+    h = 0
+    for c in grids.dedupe(_all()):
         if tier == "thorough" or c["fam"] in QUICK:
+            if tier != "thorough" and c["fam"] in ("derived", "contracts"):
+                h += 1
+                if h % 2 != seed % 2:
+                    continue  # these two families: one complete half per seed
             yield c
         else:
             k += 1
